@@ -33,6 +33,10 @@ Section GenTie.
     destruct (ltb OP dl (ofZ OP 0)); destruct (ltb OP dp (ofZ OP 0)); reflexivity.
   Qed.
 
+  (* the tail of gradient_resampler_indices: += crop offsets *)
+  Theorem gen_indices_offset_eq ys xs xy : gen_indices_offset OP (ys, xs) xy = add_offset OP ys xs xy.
+  Proof. destruct xy as [x y]. reflexivity. Qed.
+
   Theorem gen_indices_xy_eq data l0 p0 dl dp lmax pmax :
     gen_indices_xy OP data l0 p0 dl dp lmax pmax = idx_kern OP l0 p0 dl dp.
   Proof. reflexivity. Qed.
